@@ -145,6 +145,13 @@ def evaluate_quic(spec):
             "labels": ["quic", "v6" if ep["v6"] else "v4"]}
 
 
+def _quic_grid():
+    """the deterministic feature grid of C02 (Retry, 0-RTT, key updates, CID switches, packet-number gaps incl. equal truncated numbers in
+    one direction, ...), judged here for time and endpoints of every exported datagram"""
+    from checks import c02
+    return c02.grid_specs()
+
+
 def tls_strategy(tier):
     deliv = strategies.tcp_delivery(modes=("cuts", "cuts", "flight", "rec"), dups=True, moves=False)
     return strategies.single_tls_scenario(max_records=8, max_len=800 if tier == "quick" else 4000, delivery=deliv).map(
@@ -155,6 +162,7 @@ def stages(tier):
     quick = tier == "quick"
     return [
         Stage("tls-provenance", evaluate_tls, strategy=tls_strategy, examples=800 if quick else 20000),
+        Stage("quic-feature-grid", evaluate_quic, specs=_quic_grid()),
         Stage("quic-provenance", evaluate_quic, strategy=lambda t: strategies.single_quic_scenario(max_steps=10), examples=1200 if quick else 20000),
     ]
 
